@@ -174,21 +174,21 @@ func DecodeUUIDBoxSR(hdr BoxHeader, startPos uint64, sr bits.SliceReader) (Box, 
 		}
 		b.Tfrf = tfrf
 	case UUIDPiffSenc:
-		if hdr.Size < 16 {
-			return nil, fmt.Errorf("uuid box size too small: %d < 16", hdr.Size)
+		if hdr.payloadLen() < 16 {
+			return nil, fmt.Errorf("uuid box payload too small: %d < 16", hdr.payloadLen())
 		}
 		// This is like a SencBox except that there is no size and type. Offset and sizes must be slightly adjusted.
-		subHdr := BoxHeader{"senc", hdr.Size - 16, 8}
+		subHdr := BoxHeader{"senc", uint64(hdr.payloadLen()) - 16 + boxHeaderSize, 8}
 		box, err := DecodeSencSR(subHdr, b.StartPos+16, sr)
 		if err != nil {
 			return nil, fmt.Errorf("failed to decode senc in UUID: %w", err)
 		}
 		b.Senc = box.(*SencBox)
 	default:
-		if hdr.Size < 8+16 {
-			return nil, fmt.Errorf("uuid box size too small: %d < 24", hdr.Size)
+		if hdr.payloadLen() < 16 {
+			return nil, fmt.Errorf("uuid box payload too small: %d < 16", hdr.payloadLen())
 		}
-		b.UnknownPayload = sr.ReadBytes(int(hdr.Size) - 8 - 16)
+		b.UnknownPayload = sr.ReadBytes(hdr.payloadLen() - 16)
 	}
 
 	return b, sr.AccError()
